@@ -128,9 +128,21 @@ func (c *Classifier) AddValue(key, value string) error {
 	c.values[key] = &knownValue{
 		key:             key,
 		normalizedValue: norm,
-		reValue:         regexp.MustCompile(norm),
+		reValue:         literalRegexp(norm),
 	}
 	return nil
+}
+
+// literalRegexp returns a regexp that finds verbatim occurrences of s, or nil
+// if no such regexp can be built (e.g. s is not valid UTF-8). Known values are
+// texts, not patterns: regexp metacharacters in them must not be interpreted,
+// and no value may make registration panic.
+func literalRegexp(s string) *regexp.Regexp {
+	re, err := regexp.Compile(regexp.QuoteMeta(s))
+	if err != nil {
+		return nil
+	}
+	return re
 }
 
 // AddPrecomputedValue adds a known value to be matched against. The value has
@@ -146,7 +158,7 @@ func (c *Classifier) AddPrecomputedValue(key, value string, set *searchset.Searc
 	c.values[key] = &knownValue{
 		key:             key,
 		normalizedValue: value,
-		reValue:         regexp.MustCompile(value),
+		reValue:         literalRegexp(value),
 		set:             set,
 	}
 	return nil
@@ -360,7 +372,11 @@ func newMatcher(unknown string, threshold float64) *matcher {
 // are the best matches.
 func (m *matcher) findMatches(known *knownValue) {
 	var mrs []searchset.MatchRanges
-	if all := known.reValue.FindAllStringIndex(m.normUnknown, -1); all != nil {
+	var all [][]int
+	if known.reValue != nil {
+		all = known.reValue.FindAllStringIndex(m.normUnknown, -1)
+	}
+	if all != nil {
 		// We found exact matches. Just use those!
 		for _, a := range all {
 			var start, end int
